@@ -4,6 +4,7 @@ package boltz
 
 import (
 	"strings"
+	"time"
 
 	"go.etcd.io/bbolt"
 
@@ -22,6 +23,9 @@ type vPerson struct {
 	Roles []string
 	Boss  *string
 	Tag   interface{} // value of tags["k"]: nil (absent), string, int64 or bool
+	F     *float64
+	O     *bool
+	D     *time.Time
 }
 
 func (e *vPerson) GetId() string         { return e.Id }
@@ -44,6 +48,15 @@ func (vPersonStrategy) PersistEntity(e *vPerson, ctx *PersistContext) {
 		tags["k"] = e.Tag
 	}
 	ctx.SetMap("tags", tags)
+	if e.F != nil {
+		ctx.Bucket.SetFloat64("f", *e.F, ctx.FieldChecker)
+	}
+	if e.O != nil {
+		ctx.SetBool("o", *e.O)
+	}
+	if e.D != nil {
+		ctx.SetTimeP("d", e.D)
+	}
 }
 
 type vPersonStore struct {
@@ -67,6 +80,9 @@ func verifNewPersonStore() *vPersonStore {
 	reports := s.AddFkSetSymbol("reports", s)
 	s.AddNullableFkIndex(boss, reports)
 	s.AddMapSymbol("tags", ast.NodeTypeAnyType, "tags")
+	s.AddSymbol("f", ast.NodeTypeFloat64)
+	s.AddSymbol("o", ast.NodeTypeBool)
+	s.AddSymbol("d", ast.NodeTypeDatetime)
 	return s
 }
 
@@ -260,6 +276,16 @@ func verifSymPop(needs string, n int) *vPop {
 				e.Boss = &id
 			}
 		}
+		if strings.Contains(needs, "f") {
+			e.F = verifOptFloat64("f")
+		}
+		if strings.Contains(needs, "o") {
+			e.O = verifOptBool("o")
+		}
+		if strings.Contains(needs, "d") && verifrt.Choose("d.nil", 2) == 1 {
+			v := verifrt.TimeUTC("d")
+			e.D = &v
+		}
 		if strings.Contains(needs, "t") {
 			switch verifrt.Choose("tag.kind", 4) {
 			case 1:
@@ -330,3 +356,64 @@ func VerifC01_StoreScalarsAndLinks() {
 	verifC01Store(vSProgs[12:31])
 }
 func VerifC01_MapElements() { verifC01Store(vSProgs[31:]) }
+
+// float, bool and datetime fields through the store (typed bucket decoding,
+// row cursor evaluation, dotted access), datetimes arbitrary instants
+var (
+	vD0 = time.Date(2020, 1, 2, 3, 4, 5, 0, time.UTC)
+	vD1 = time.Date(2021, 1, 2, 3, 4, 5, 0, time.UTC)
+)
+
+const (
+	vD0s    = "datetime(2020-01-02T03:04:05Z)"
+	vD0zone = "datetime(2020-01-02T05:04:05+02:00)"
+	vD1s    = "datetime(2021-01-02T03:04:05Z)"
+)
+
+var vSProgs2 = []vSProg{
+	{`f > 1.5`, "f", func(p *vPop, e *vPerson) bool { return e.F != nil && *e.F > 1.5 }},
+	{`f = 2`, "f", func(p *vPop, e *vPerson) bool { return e.F != nil && *e.F == 2 }},
+	{`f != 2`, "f", func(p *vPop, e *vPerson) bool { return e.F == nil || *e.F != 2 }},
+	{`f between 1 and 2`, "f", func(p *vPop, e *vPerson) bool { return e.F != nil && verifrt.And(*e.F >= 1, *e.F < 2) }},
+	{`f in [1.5, 2]`, "f", func(p *vPop, e *vPerson) bool { return e.F != nil && verifrt.Or(*e.F == 1.5, *e.F == 2) }},
+	{`f = null`, "f", func(p *vPop, e *vPerson) bool { return e.F == nil }},
+	{`o = true`, "o", func(p *vPop, e *vPerson) bool { return e.O != nil && *e.O }},
+	{`o != true`, "o", func(p *vPop, e *vPerson) bool { return e.O == nil || !*e.O }},
+	{`o != null`, "o", func(p *vPop, e *vPerson) bool { return e.O != nil }},
+	{`d < ` + vD0s, "d", func(p *vPop, e *vPerson) bool { return e.D != nil && e.D.Before(vD0) }},
+	{`d >= ` + vD0zone, "d", func(p *vPop, e *vPerson) bool { return e.D != nil && !e.D.Before(vD0) }},
+	{`d = ` + vD0zone, "d", func(p *vPop, e *vPerson) bool { return e.D != nil && e.D.Equal(vD0) }},
+	{`d != ` + vD0s, "d", func(p *vPop, e *vPerson) bool { return e.D == nil || !e.D.Equal(vD0) }},
+	{`d between ` + vD0s + ` and ` + vD1s, "d", func(p *vPop, e *vPerson) bool {
+		return e.D != nil && !e.D.Before(vD0) && e.D.Before(vD1)
+	}},
+	{`d in [` + vD0zone + `, ` + vD1s + `]`, "d", func(p *vPop, e *vPerson) bool {
+		return e.D != nil && (e.D.Equal(vD0) || e.D.Equal(vD1))
+	}},
+	{`d = null`, "d", func(p *vPop, e *vPerson) bool { return e.D == nil }},
+	{`boss.d < ` + vD0s, "bd", func(p *vPop, e *vPerson) bool {
+		b := p.boss(e)
+		return b != nil && b.D != nil && b.D.Before(vD0)
+	}},
+	{`anyOf(reports.f) > 1.5`, "bf", func(p *vPop, e *vPerson) bool {
+		res := false
+		for _, r := range p.reports(e) {
+			if r.F != nil {
+				res = verifrt.Or(res, *r.F > 1.5)
+			}
+		}
+		return res
+	}},
+}
+
+func init() {
+	verifQueryFamilies = append(verifQueryFamilies, func() []string {
+		var qs []string
+		for _, p := range vSProgs2 {
+			qs = append(qs, p.text)
+		}
+		return qs
+	})
+}
+
+func VerifC01_StoreFloatBoolDatetime() { verifC01Store(vSProgs2) }
